@@ -19,10 +19,12 @@ open PB.StopProto PB.Gen.StopProto
 /-- The model's stop sequence and check sequence are the ones written in the source (regenerated every run),
     and the status order used by `readyToStop` (`> StatusOffline`) is the source's. -/
 theorem gen_matches_model :
-    stopSeq = ["ctrlFuncRunning.Set", "stopFlag.Set", "cancelCtx", "startCtrlFn", "select:stopComplete|timeout",
+    stopSeq = ["ctrlFuncRunning.Set", "stopFlag.Set", "cancelCtx", "startCtrlFn", "<-m.stopComplete",
+               "<-time.After(moduleStopTimeout)", "time.After(moduleStopTimeout)", "<-stopFnError",
                "status=StatusOffline", "reports<-"] ∧
     checkSeq = ["stopFlag.IsSet", "ctrlFuncRunning.IsNotSet", "workerCnt==0", "taskCnt==0", "microTaskCnt==0",
-                "stopCompleted.SetToIf(false,true)", "close(stopComplete)"] ∧
+                "stopCompleted.SetToIf(false,true)", "Lock", "defer", "Unlock", "close(stopComplete)"] ∧
+    revDepWaitCond = "revDep.Status() > StatusOffline" ∧ onlineSoonResult = "!m.stopFlag.IsSet()" ∧
     statusDead < statusOffline ∧ statusPreparing < statusOffline ∧ statusOffline < statusStopping ∧
     statusStopping < statusStarting ∧ statusStarting < statusOnline := by
   decide
